@@ -3,7 +3,7 @@
 import json, glob, os
 H = os.path.dirname(os.path.dirname(os.path.abspath(__file__)))
 rows = []
-for d in sorted(glob.glob(os.path.join(H, "seeded", "*"))):
+for d in sorted(x for x in glob.glob(os.path.join(H, "seeded", "*")) if os.path.isdir(x)):
     m = json.load(open(os.path.join(d, "meta.json")))
     c = m["confirmed_here"]
     subs = []
